@@ -643,3 +643,153 @@ Proof.
     rewrite Nat.eqb_refl. ring.
   - apply rsum_zero. intros i Hi. bdestr; ring.
 Qed.
+
+(* ---------- (8) QR::solve returns a least-squares solution ---------- *)
+(* the reflections as solve applies them: without the `QR(k,k) != 0` guard *)
+Fixpoint Rtapp (m : nat) (V : @Mx R) (cnt : nat) (x : nat -> R) : nat -> R :=
+  match cnt with 0%nat => x | S c => refl m c V (Rtapp m V c x) end.
+
+Lemma Rtapp_Qtapp m V cnt x : (forall k, (k < cnt)%nat -> V k k <> 0) ->
+  forall i, Rtapp m V cnt x i = Qtapp m V cnt x i.
+Proof.
+  induction cnt as [|c IH]; intros Hnz i; [reflexivity|].
+  cbn [Rtapp Qtapp]. unfold Hk. rewrite (proj2 (nez_R (V c c))) by (apply Hnz; lia).
+  apply refl_ext_x; intros; apply IH; intros; apply Hnz; lia.
+Qed.
+
+Lemma qtb_inner_spec m k bn (QR b1 : @Mx R) i j :
+  for_up bn 0 (fun j b2 => house_apply ROps m k QR j b2) b1 i j =
+  if (j <? bn) then refl m k QR (fun r => b1 r j) i else b1 i j.
+Proof.
+  pose (P := fun (c : nat) (b2 : @Mx R) => forall i j,
+     b2 i j = if (j <? c) then refl m k QR (fun r => b1 r j) i else b1 i j).
+  assert (HP : P bn (for_up bn 0 (fun j b2 => house_apply ROps m k QR j b2) b1)).
+  { apply for_up_inv.
+    - intros i0 j0. bdestr.
+    - intros c b2 Hc HB i0 j0. cbn [Nat.add]. rewrite house_apply_spec.
+      destruct (Nat.eqb_spec j0 c) as [->|Hne].
+      + replace (c <? S c) with true by (symmetry; bdestr).
+        apply refl_ext_x; intros; rewrite HB; bdestr.
+      + rewrite HB. bdestr. }
+  apply HP.
+Qed.
+
+Lemma qr_qtb_spec m n bn (QR b : @Mx R) i j :
+  qr_qtb ROps m n bn QR b i j = if (j <? bn) then Rtapp m QR n (fun r => b r j) i else b i j.
+Proof.
+  unfold qr_qtb.
+  pose (P := fun (c : nat) (b1 : @Mx R) => forall i j,
+     b1 i j = if (j <? bn) then Rtapp m QR c (fun r => b r j) i else b i j).
+  match goal with |- for_up n 0 ?f b i j = _ => assert (HP : P n (for_up n 0 f b)) end.
+  { apply for_up_inv.
+    - intros i0 j0. cbn [Rtapp]. bdestr.
+    - intros c b1 Hc HB i0 j0. cbn [Nat.add]. rewrite qtb_inner_spec.
+      destruct (Nat.ltb_spec j0 bn) as [Hj|Hj].
+      + cbn [Rtapp]. apply refl_ext_x; intros; rewrite HB; bdestr.
+      + rewrite HB. bdestr. }
+  apply HP.
+Qed.
+
+Lemma qr_singular_false n (tau : nat -> R) :
+  qr_singular ROps n tau = false -> forall k, (k < n)%nat -> tau k <> 0.
+Proof.
+  unfold qr_singular. intros H k Hk0. cbn [oeqb o0 ROps] in H.
+  apply Reqb_false. destruct (Reqb (tau k) 0) eqn:E; [|reflexivity].
+  rewrite <- H. symmetry. apply existsb_exists. exists k. split; [apply in_seq; lia|exact E].
+Qed.
+
+Lemma Qtapp_linear m V cnt a b : forall x y i,
+  Qtapp m V cnt (fun i => a * x i + b * y i) i = a * Qtapp m V cnt x i + b * Qtapp m V cnt y i.
+Proof.
+  induction cnt as [|c IH]; intros x y i; [reflexivity|].
+  cbn [Qtapp]. rewrite <- Hk_linear. apply Hk_ext; intros; apply IH.
+Qed.
+Lemma Qtapp_zero m V cnt i : Qtapp m V cnt (fun _ => 0) i = 0.
+Proof.
+  rewrite (Qtapp_ext m V cnt _ (fun i => 0 * 0 + 0 * 0)) by (intros; ring).
+  rewrite (Qtapp_linear m V cnt 0 0 (fun _ => 0) (fun _ => 0)). ring.
+Qed.
+Lemma Qtapp_lin_sum m V cnt N (c : nat -> R) (x : nat -> nat -> R) i :
+  Qtapp m V cnt (fun r => rsum N (fun t => c t * x t r)) i = rsum N (fun t => c t * Qtapp m V cnt (x t) i).
+Proof.
+  induction N as [|N IH].
+  - rewrite rsum_0. apply Qtapp_zero.
+  - rewrite rsum_S, <- IH.
+    rewrite (Qtapp_ext m V cnt _ (fun r => 1 * rsum N (fun t => c t * x t r) + c N * x N r))
+      by (intros; rewrite rsum_S; ring).
+    rewrite Qtapp_linear. ring.
+Qed.
+
+(* row i of R times a column, written as back substitution sees it *)
+Lemma qr_R_row n (QR : @Mx R) tau (x : nat -> R) i : (i < n)%nat ->
+  rsum n (fun t => qr_R ROps QR tau i t * x t) =
+  tau i * x i + rsum (n - S i) (fun t => QR i (S i + t)%nat * x (S i + t)%nat).
+Proof.
+  intros Hi. replace n with (i + S (n - S i))%nat at 1 by lia.
+  rewrite rsum_app, rsum_first, Nat.add_0_r.
+  rewrite rsum_zero by (intros t Ht; rewrite qr_R_upper by lia; ring).
+  replace (qr_R ROps QR tau i i) with (tau i) by (unfold qr_R; bdestr).
+  rewrite (rsum_ext (n - S i) _ (fun t => QR i (S i + t)%nat * x (S i + t)%nat)); [ring|].
+  intros t Ht. replace (i + S t)%nat with (S i + t)%nat by lia. unfold qr_R. bdestr.
+Qed.
+
+Definition back_subst_spec_stmt : Prop :=
+  forall n bn (Uo : @Mx R) (dg : nat -> R) (X1 : @Mx R), (forall k, (k < n)%nat -> dg k <> 0) ->
+  let X2 := back_subst ROps n bn Uo dg X1 in
+  (forall i j, (i < n)%nat -> (j < bn)%nat ->
+     dg i * X2 i j + rsum (n - S i) (fun t => Uo i (S i + t)%nat * X2 (S i + t)%nat j) = X1 i j) /\
+  (forall i j, (n <= i)%nat \/ (bn <= j)%nat -> X2 i j = X1 i j).
+
+Lemma qr_solve_lsq_from_back_subst (Hbs : back_subst_spec_stmt) :
+  forall m n bn (A b X : @Mx R), (n <= m)%nat -> qr_solve_mut ROps m n bn A b = Some X ->
+  forall k j, (k < n)%nat -> (j < bn)%nat ->
+    rsum m (fun i => A i k * (rsum n (fun t => A i t * X t j) - b i j)) = 0.
+Proof.
+  intros m n bn A b X Hnm Hsolve k j Hk0 Hj.
+  pose proof (qr_triangularize m n A Hnm) as T. pose proof (qr_refl_ok m n A Hnm) as F.
+  pose proof (qr_reflector_norm m n A Hnm) as N.
+  unfold qr_solve_mut in Hsolve.
+  destruct (qr_mut ROps m n A) as [QR tau]. cbn [fst] in F.
+  unfold qr_solve in Hsolve. destruct (qr_singular ROps n tau) eqn:Esing; [discriminate|].
+  pose proof (qr_singular_false n tau Esing) as Htau.
+  assert (Hnz : forall k, (k < n)%nat -> QR k k <> 0).
+  { intros k' Hk'. destruct (N k' Hk') as [[_ H0]|[H1 _]]; [exfalso; apply (Htau k' Hk'); exact H0|lra]. }
+  destruct (Hbs n bn QR tau (qr_qtb ROps m n bn QR b) Htau) as [BX _].
+  injection Hsolve as HX. rewrite HX in BX. clear HX.
+  (* R X = (Q^T b) on the first n rows *)
+  assert (RX : forall i, (i < n)%nat ->
+             rsum n (fun t => qr_R ROps QR tau i t * X t j) = Qtapp m QR n (fun r => b r j) i).
+  { intros i Hi. rewrite (qr_R_row n QR tau (fun t => X t j) i Hi). rewrite BX by assumption.
+    rewrite qr_qtb_spec. replace (j <? bn) with true by (symmetry; bdestr).
+    apply Rtapp_Qtapp. exact Hnz. }
+  change (dot m (fun i => A i k) (fun i => rsum n (fun t => A i t * X t j) - b i j) = 0).
+  rewrite <- (Qtapp_dot m QR n F). unfold dot. apply rsum_zero. intros i Hi.
+  rewrite T by assumption.
+  destruct (Nat.leb_spec i k) as [Hik|Hik]; [|ring].
+  assert (Hz : Qtapp m QR n (fun i => rsum n (fun t => A i t * X t j) - b i j) i = 0).
+  { rewrite (Qtapp_ext m QR n _ (fun i => 1 * rsum n (fun t => X t j * A i t) + (-1) * b i j)).
+    2:{ intros r Hr. rewrite (rsum_ext n (fun t => X t j * A r t) (fun t => A r t * X t j)) by (intros; ring). ring. }
+    2:{ rewrite (rsum_ext n (fun t => X t j * A i t) (fun t => A i t * X t j)) by (intros; ring). ring. }
+    rewrite Qtapp_linear.
+    rewrite (Qtapp_lin_sum m QR n n (fun t => X t j) (fun t r => A r t) i).
+    rewrite <- RX by lia.
+    rewrite (rsum_ext n _ (fun t => qr_R ROps QR tau i t * X t j)); [ring|].
+    intros t Ht. rewrite T by assumption. bdestr; try ring. rewrite qr_R_upper by lia. ring. }
+  rewrite Hz. ring.
+Qed.
+
+(* ---------- (9) a concrete instance: the step is taken, tau = -|a| ---------- *)
+Definition ex_A : @Mx R :=
+  fun i j => if Nat.eqb j 0 then (if Nat.eqb i 0 then 3 else if Nat.eqb i 1 then 4 else 0) else 0.
+Example qr_example : snd (qr_mut ROps 2 1 ex_A) 0%nat = -5.
+Proof.
+  unfold qr_mut, qr_steps. cbn [for_up Nat.add]. unfold qr_step.
+  assert (Hn : col_norm ROps 2 0 ex_A = 5).
+  { rewrite col_norm_spec by lia. cbn [Nat.sub]. rewrite !rsum_S, rsum_0. unfold ex_A. cbn [Nat.add Nat.eqb].
+    replace (0 + 3 * 3 + 4 * 4) with (5 * 5) by ring. apply sqrt_square. lra. }
+  rewrite Hn.
+  assert (H5 : nez ROps 5 = true) by (apply nez_R; lra). rewrite H5.
+  cbn [oltb o0 ROps oneg].
+  assert (Hs : Rltb (ex_A 0%nat 0%nat) 0 = false) by (apply Rltb_false; unfold ex_A; cbn [Nat.eqb]; lra).
+  rewrite Hs. cbn [snd]. rewrite updv_same. reflexivity.
+Qed.
